@@ -1,4 +1,5 @@
 """Developer tool: dump the registered conditions (name, tiers, bounds) as markdown for DESIGN.md §8."""
+import os
 import sys
 sys.path.insert(0, "/verif"); sys.path.insert(1, "/repo")
 from vlib import registry
@@ -10,9 +11,14 @@ for prop in registry.PROPS:
         out.append("### %s\n(not built: %r)\n" % (prop, e)); continue
     out.append("### %s" % prop)
     for c in conds:
-        out.append("* `%s` (%s; %s shards quick / %s thorough)" % (
+        os.environ["VF_ALL_SHARDS"] = "1"
+        full = len(c.shards("thorough")) if "thorough" in c.tiers else None
+        del os.environ["VF_ALL_SHARDS"]
+        sched = len(c.shards("thorough")) if "thorough" in c.tiers else None
+        out.append("* `%s` (%s; %s shards quick / %s thorough%s)" % (
             c.name, "+".join(c.tiers), len(c.shards("quick")) if "quick" in c.tiers else "-",
-            len(c.shards("thorough")) if "thorough" in c.tiers else "-"))
+            full if full is not None else "-",
+            "" if full is None or sched == full else ", %d scheduled" % sched))
         for tier in c.tiers:
             if c.bound.get(tier) and not (tier == "thorough" and c.bound.get("thorough") in ("same", c.bound.get("quick"))):
                 out.append("    * %s: %s" % (tier, c.bound[tier]))
